@@ -177,6 +177,16 @@ Round 5 seeded changes: r5m1 caught.  r5m2 (Cloner.clone_node drops the overload
   models the merge (merge_imports, C05_inline_merges_opset_imports: old and function-table domains keep their versions) and
   every inline step checks inline_opsets_okb in Coq (old table is a prefix, additions come from function tables, every node
   of the resulting main graph has an import).
+Second deepening round: per-run TRANSLATIONS of two pass bodies (fail-closed ast -> Gallina, small dedicated fragments, see
+  _Trim / gen_opsets_text): Gen/C05GenTrim.v = unused_removal._remove_trailing_empty_inputs (count-down loop with break over
+  node.inputs, resize_inputs as truncation), Gen/C05GenOpsets.v = RemoveUnusedOpsetsPass._process_graph_like (set add / set
+  difference / dict deletion; RecursiveGraphIterator abstracted to the list of node domains).  Equivalence theorems:
+  C05_trim_translation_equiv (GenEquiv.v, helper: translated function = Model.strip_trailing_none + changed flag) and
+  C05_remove_unused_opsets_translation_equiv (GenEquivOpsets.v: Opsets.remove_unused_opsets = the translated function applied
+  as call() applies it; call() itself is composed by hand in the statement).  New stream trim_stream: the translated function
+  evaluated in Coq against the implementation's function on ~115 (quick) input lists (from generated models + random,
+  incl. empty / all omitted), replay kind translation-mismatch.  A source change outside the fragment breaks the check
+  (translate:C05GenTrim / C05GenOpsets), a change inside it breaks the equivalence proof.
 Wall time: quick ~60-110 s under load (40 specs x (22 single passes + 5 sequences) + corpus), thorough ~9-12 min (400 specs).
 """
 
@@ -230,14 +240,209 @@ def gen_text() -> str:
     return text
 
 
+# --- translation of unused_removal.py::_remove_trailing_empty_inputs (Gen/C05GenTrim.v)
+# Fragment (anything else -> Unsupported, the check fails closed):
+#   def f(node): <stmts>            the only state is node.inputs (a list of optional values) and integer locals
+#   stmts:  v = <e>  |  v -= <e>  |  for i in reversed(range(<e>)): <stmts>  |  if <c>: <stmts> [else: <stmts>]  |  break
+#           |  return False / return True  |  node.resize_inputs(<e>)      (truncation of the input list: modelled API)
+#   e:      int literal | local | len(node.inputs) | e - e      c:  node.inputs[<i>] is None | e == e
+# Semantics emitted: a state monad over (inputs, locals..., returned?) written as nested lets; the loop is
+# py_for_break (stops at `break`).  The function returns (new inputs, returned flag).
+UNUSED_SRC = os.path.join(REPO, "src", "onnx_ir", "passes", "common", "unused_removal.py")
+
+TRIM_PRELUDE = """(* loop with break over a list of indices: body returns (new state, break?) *)
+Definition py_for_break {S : Type} (idx : list nat) (body : nat -> S -> S * bool) (s : S) : S :=
+  fst (fold_left (fun (st : S * bool) i => if snd st then st else body i (fst st)) idx (s, false)).
+Definition py_is_none {A : Type} (o : option A) : bool := match o with None => true | Some _ => false end.
+(* Node.resize_inputs(n) for n <= len(inputs): the first n inputs are kept *)
+Definition py_resize_inputs {A : Type} (inputs : list A) (n : Z) : list A := firstn (Z.to_nat n) inputs.
+
+"""
+
+
+class _Trim:
+    """Translator for the fragment above; `node.inputs` is the Coq variable `inputs : list (option N)`."""
+
+    def __init__(self, arg: str):
+        self.arg = arg
+
+    def is_inputs(self, e) -> bool:
+        return isinstance(e, ast.Attribute) and e.attr == "inputs" and isinstance(e.value, ast.Name) and e.value.id == self.arg
+
+    def int_expr(self, e, locals_) -> str:
+        if isinstance(e, ast.Constant) and isinstance(e.value, int) and not isinstance(e.value, bool):
+            return f"{e.value}"
+        if isinstance(e, ast.Name) and e.id in locals_:
+            return e.id
+        if isinstance(e, ast.Call) and isinstance(e.func, ast.Name) and e.func.id == "len" and len(e.args) == 1 and not e.keywords \
+                and self.is_inputs(e.args[0]):
+            return "(Z.of_nat (length inputs))"
+        if isinstance(e, ast.BinOp) and isinstance(e.op, ast.Sub):
+            return f"({self.int_expr(e.left, locals_)} - {self.int_expr(e.right, locals_)})"
+        raise T.Unsupported("integer expression " + ast.dump(e))
+
+    def cond(self, e, locals_, idx) -> str:
+        if isinstance(e, ast.Compare) and len(e.ops) == 1 and isinstance(e.ops[0], ast.Is) and isinstance(e.comparators[0], ast.Constant) \
+                and e.comparators[0].value is None and isinstance(e.left, ast.Subscript) and self.is_inputs(e.left.value) \
+                and isinstance(e.left.slice, ast.Name) and e.left.slice.id == idx:
+            return f"py_is_none (nth {idx} inputs None)"
+        if isinstance(e, ast.Compare) and len(e.ops) == 1 and isinstance(e.ops[0], ast.Eq):
+            return f"Z.eqb {self.int_expr(e.left, locals_)} {self.int_expr(e.comparators[0], locals_)}"
+        raise T.Unsupported("condition " + ast.dump(e))
+
+    def loop_body(self, stmts, var, idx) -> str:
+        """Body of a for loop over one integer local `var`: -> Coq term of type Z * bool (new value, break?)."""
+        if len(stmts) == 1 and isinstance(stmts[0], ast.If):
+            st = stmts[0]
+            return (f"if {self.cond(st.test, [var], idx)} then {self.loop_body(st.body, var, idx)} "
+                    f"else {self.loop_body(st.orelse, var, idx)}")
+        if len(stmts) == 1 and isinstance(stmts[0], ast.Break):
+            return f"({var}, true)"
+        if len(stmts) == 1 and isinstance(stmts[0], ast.AugAssign) and isinstance(stmts[0].op, ast.Sub) \
+                and isinstance(stmts[0].target, ast.Name) and stmts[0].target.id == var:
+            return f"({var} - {self.int_expr(stmts[0].value, [var])}, false)"
+        raise T.Unsupported("loop body " + "; ".join(ast.dump(x) for x in stmts))
+
+    def function(self, fn: ast.FunctionDef, coq_name: str) -> str:
+        body = [st for st in fn.body if not (isinstance(st, ast.Expr) and isinstance(st.value, ast.Constant) and isinstance(st.value.value, str))]
+        # v = <e>
+        if not (len(body) == 5 and isinstance(body[0], ast.Assign) and len(body[0].targets) == 1 and isinstance(body[0].targets[0], ast.Name)):
+            raise T.Unsupported("expected `v = <e>` first")
+        var = body[0].targets[0].id
+        init = self.int_expr(body[0].value, [])
+        lp = body[1]
+        if not (isinstance(lp, ast.For) and isinstance(lp.target, ast.Name) and not lp.orelse and isinstance(lp.iter, ast.Call)
+                and isinstance(lp.iter.func, ast.Name) and lp.iter.func.id == "reversed" and len(lp.iter.args) == 1
+                and isinstance(lp.iter.args[0], ast.Call) and isinstance(lp.iter.args[0].func, ast.Name)
+                and lp.iter.args[0].func.id == "range" and len(lp.iter.args[0].args) == 1):
+            raise T.Unsupported("expected `for i in reversed(range(<e>))`")
+        idx = lp.target.id
+        bound = self.int_expr(lp.iter.args[0].args[0], [var])
+        loop = (f"py_for_break (rev (seq 0 (Z.to_nat {bound})))\n      (fun {idx} {var} => {self.loop_body(lp.body, var, idx)})\n      {init}")
+        # if <c>: return False
+        i2 = body[2]
+        if not (isinstance(i2, ast.If) and not i2.orelse and len(i2.body) == 1 and isinstance(i2.body[0], ast.Return)
+                and isinstance(i2.body[0].value, ast.Constant) and i2.body[0].value.value is False):
+            raise T.Unsupported("expected `if <c>: return False`")
+        c2 = self.cond(i2.test, [var], idx)
+        rs = body[3]
+        if not (isinstance(rs, ast.Expr) and isinstance(rs.value, ast.Call) and isinstance(rs.value.func, ast.Attribute)
+                and rs.value.func.attr == "resize_inputs" and isinstance(rs.value.func.value, ast.Name) and rs.value.func.value.id == self.arg
+                and len(rs.value.args) == 1 and not rs.value.keywords):
+            raise T.Unsupported("expected `node.resize_inputs(<e>)`")
+        rsz = self.int_expr(rs.value.args[0], [var])
+        if not (isinstance(body[4], ast.Return) and isinstance(body[4].value, ast.Constant) and body[4].value.value is True):
+            raise T.Unsupported("expected `return True` last")
+        return (f"Definition {coq_name} (inputs : list (option N)) : list (option N) * bool :=\n"
+                f"  let {var} :=\n    {loop} in\n"
+                f"  if {c2} then (inputs, false)\n  else (py_resize_inputs inputs {rsz}, true).\n")
+
+
+def gen_trim_text() -> str:
+    mod = T._src(UNUSED_SRC)
+    fn = T.find_function(mod, "_remove_trailing_empty_inputs")
+    if len(fn.args.args) != 1 or fn.args.vararg or fn.args.kwarg or fn.args.kwonlyargs:
+        raise T.Unsupported("signature of _remove_trailing_empty_inputs")
+    tr = _Trim(fn.args.args[0].arg)
+    return (T.HEADER + TRIM_PRELUDE + "(* translated from unused_removal.py::_remove_trailing_empty_inputs *)\n"
+            + tr.function(fn, "gen_remove_trailing_empty_inputs"))
+
+
+# --- translation of unused_removal.py::RemoveUnusedOpsetsPass._process_graph_like (Gen/C05GenOpsets.v)
+# Fragment:  def f(self, G, S: set[str]) -> bool:
+#              for n in ir.traversal.RecursiveGraphIterator(G): S.add(n.domain)     the iterator is abstracted to the list of
+#              U = set(G.opset_imports) - S                                          the domains of the nodes it yields
+#              for d in U: del G.opset_imports[d]                                    (iteration order of a set: the list order;
+#              return bool(U)                                                         deletions commute)
+# sets of strings are duplicate-free lists, the dict G.opset_imports an association list.
+OPSETS_PRELUDE = """Definition py_str_eqb : list N -> list N -> bool := list_eqb N.eqb.
+Definition py_set_add (s : list (list N)) (x : list N) : list (list N) := if existsb (py_str_eqb x) s then s else s ++ [x].
+(* set(d) - s for a dict d: the keys of d that are not in s *)
+Definition py_keys_minus {V : Type} (d : list (list N * V)) (s : list (list N)) : list (list N) :=
+  filter (fun k => negb (existsb (py_str_eqb k) s)) (map fst d).
+Definition py_dict_del {V : Type} (d : list (list N * V)) (k : list N) : list (list N * V) :=
+  filter (fun kv => negb (py_str_eqb (fst kv) k)) d.
+Definition py_bool_of_list {A : Type} (l : list A) : bool := match l with [] => false | _ :: _ => true end.
+
+"""
+
+
+def _is_attr(e, base: str, attr: str) -> bool:
+    return isinstance(e, ast.Attribute) and e.attr == attr and isinstance(e.value, ast.Name) and e.value.id == base
+
+
+def gen_opsets_text() -> str:
+    mod = T._src(UNUSED_SRC)
+    cls = next((c for c in mod.body if isinstance(c, ast.ClassDef) and c.name == "RemoveUnusedOpsetsPass"), None)
+    if cls is None:
+        raise T.Unsupported("class RemoveUnusedOpsetsPass not found")
+    fn = next((f for f in cls.body if isinstance(f, ast.FunctionDef) and f.name == "_process_graph_like"), None)
+    if fn is None or [a.arg for a in fn.args.args][0:1] != ["self"] or len(fn.args.args) != 3:
+        raise T.Unsupported("signature of _process_graph_like")
+    G_, S_ = fn.args.args[1].arg, fn.args.args[2].arg
+    body = [st for st in fn.body if not (isinstance(st, ast.Expr) and isinstance(st.value, ast.Constant))]
+    if len(body) != 4:
+        raise T.Unsupported("expected four statements in _process_graph_like")
+    lp, asg, dl, ret = body
+    # for n in ir.traversal.RecursiveGraphIterator(G): S.add(n.domain)
+    ok = (isinstance(lp, ast.For) and isinstance(lp.target, ast.Name) and not lp.orelse and isinstance(lp.iter, ast.Call)
+          and ast.unparse(lp.iter.func) == "ir.traversal.RecursiveGraphIterator" and len(lp.iter.args) == 1 and not lp.iter.keywords
+          and isinstance(lp.iter.args[0], ast.Name) and lp.iter.args[0].id == G_ and len(lp.body) == 1
+          and isinstance(lp.body[0], ast.Expr) and isinstance(lp.body[0].value, ast.Call) and _is_attr(lp.body[0].value.func, S_, "add")
+          and len(lp.body[0].value.args) == 1 and _is_attr(lp.body[0].value.args[0], lp.target.id, "domain"))
+    if not ok:
+        raise T.Unsupported("first statement: " + ast.unparse(lp))
+    # U = set(G.opset_imports) - S
+    ok = (isinstance(asg, ast.Assign) and len(asg.targets) == 1 and isinstance(asg.targets[0], ast.Name) and isinstance(asg.value, ast.BinOp)
+          and isinstance(asg.value.op, ast.Sub) and isinstance(asg.value.left, ast.Call) and isinstance(asg.value.left.func, ast.Name)
+          and asg.value.left.func.id == "set" and len(asg.value.left.args) == 1 and _is_attr(asg.value.left.args[0], G_, "opset_imports")
+          and isinstance(asg.value.right, ast.Name) and asg.value.right.id == S_)
+    if not ok:
+        raise T.Unsupported("second statement: " + ast.unparse(asg))
+    U_ = asg.targets[0].id
+    # for d in U: del G.opset_imports[d]
+    ok = (isinstance(dl, ast.For) and isinstance(dl.target, ast.Name) and not dl.orelse and isinstance(dl.iter, ast.Name) and dl.iter.id == U_
+          and len(dl.body) == 1 and isinstance(dl.body[0], ast.Delete) and len(dl.body[0].targets) == 1
+          and isinstance(dl.body[0].targets[0], ast.Subscript) and _is_attr(dl.body[0].targets[0].value, G_, "opset_imports")
+          and isinstance(dl.body[0].targets[0].slice, ast.Name) and dl.body[0].targets[0].slice.id == dl.target.id)
+    if not ok:
+        raise T.Unsupported("third statement: " + ast.unparse(dl))
+    # return bool(U)
+    ok = (isinstance(ret, ast.Return) and isinstance(ret.value, ast.Call) and isinstance(ret.value.func, ast.Name) and ret.value.func.id == "bool"
+          and len(ret.value.args) == 1 and isinstance(ret.value.args[0], ast.Name) and ret.value.args[0].id == U_)
+    if not ok:
+        raise T.Unsupported("fourth statement: " + ast.unparse(ret))
+    n_, d_ = lp.target.id, dl.target.id
+    text = (f"(* translated from unused_removal.py::RemoveUnusedOpsetsPass._process_graph_like; `nodes_domains` = the domains of the\n"
+            f"   nodes ir.traversal.RecursiveGraphIterator({G_}) yields, `opset_imports` = {G_}.opset_imports *)\n"
+            f"Definition gen_process_graph_like (nodes_domains : list (list N)) (opset_imports : list (list N * Z)) ({S_} : list (list N))\n"
+            f"  : list (list N * Z) * bool :=\n"
+            f"  let {S_} := fold_left (fun {S_} {n_}_domain => py_set_add {S_} {n_}_domain) nodes_domains {S_} in\n"
+            f"  let {U_} := py_keys_minus opset_imports {S_} in\n"
+            f"  let opset_imports := fold_left (fun opset_imports {d_} => py_dict_del opset_imports {d_}) {U_} opset_imports in\n"
+            f"  (opset_imports, py_bool_of_list {U_}).\n")
+    return T.HEADER + OPSETS_PRELUDE + text
+
+
 def generate(ck) -> bool:
+    ok = True
+    try:
+        ck.gen("C05GenOpsets", gen_opsets_text())
+    except (T.Unsupported, SyntaxError, OSError) as e:
+        ck.gen_failed("C05GenOpsets", e)
+        ok = False
     try:
         text = gen_text()
+        ck.gen("C05Gen", text)
     except (T.Unsupported, SyntaxError, OSError) as e:
         ck.gen_failed("C05Gen", e)
-        return False
-    ck.gen("C05Gen", text)
-    return True
+        ok = False
+    try:
+        ck.gen("C05GenTrim", gen_trim_text())
+    except (T.Unsupported, SyntaxError, OSError) as e:
+        ck.gen_failed("C05GenTrim", e)
+        ok = False
+    return ok
 
 
 # --------------------------------------------------------------------------- the passes
@@ -1295,6 +1500,59 @@ def coq_steps(ck, steps: list[Step], tag: str, raw=None) -> tuple[list[int], lis
 
 # --------------------------------------------------------------------------- main
 
+def trim_stream(ck, n: int) -> None:
+    """The TRANSLATED _remove_trailing_empty_inputs (Gen/C05GenTrim.v) against the implementation's function on input lists:
+    patterns taken from generated models plus random ones (empty list, all omitted, omitted in the middle).  A replay
+    names the pattern."""
+    import re
+    import onnx_ir as ir
+    from onnx_ir.passes.common import unused_removal as U
+    pats = [[], [None], [None, None, None], [1], [1, None], [None, 1], [1, None, 2, None, None]]
+    for _ in range(n):
+        k = ck.rng.randrange(0, 7)
+        pats.append([ck.rng.choice([None, None, 1, 2, 3]) for _ in range(k)])
+    for _ in range(max(2, n // 8)):
+        spec = G.Gen(random.Random(ck.rng.randrange(1 << 30))).gen_model()
+        for nd in _walk_nodes(spec):
+            pats.append([None if x == "" else 1 + (hash(x) % 5) for x in nd["ins"]])
+    rows, results = [], []
+    for pat in pats:
+        vals = {i: ir.Value(name=f"v{i}") for i in set(x for x in pat if x is not None)}
+        node = ir.Node("", "Op", [None if x is None else vals[x] for x in pat], num_outputs=1)
+        try:
+            changed = U._remove_trailing_empty_inputs(node)
+            after = [None if v is None else int(v.name[1:]) for v in node.inputs]
+        except Exception as e:  # noqa: BLE001
+            ck.broken("correspondence:trim", f"_remove_trailing_empty_inputs raised {type(e).__name__} on {pat}")
+            return
+        results.append((pat, after, bool(changed)))
+        o = lambda x: "None" if x is None else f"(Some {x}%N)"  # noqa: E731
+        rows.append(f"({clist(o(x) for x in pat)}, ({clist(o(x) for x in after)}, {'true' if changed else 'false'}))")
+        ck.count()
+    text = ("From Coq Require Import ZArith NArith List Bool.\nFrom IRV Require Import Base.Exn Gen.C05GenTrim.\nImport ListNotations.\n"
+            "Definition oeq (a b : option N) : bool := match a, b with None, None => true | Some x, Some y => N.eqb x y | _, _ => false end.\n"
+            "Fixpoint leq (a b : list (option N)) : bool := match a, b with [] , [] => true | x :: a', y :: b' => oeq x y && leq a' b' | _, _ => false end.\n"
+            "Definition rows : list (list (option N) * (list (option N) * bool)) := " + clist(rows) + ".\n"
+            "Eval vm_compute in (failing (fun r => let g := gen_remove_trailing_empty_inputs (fst r) in "
+            "leq (fst g) (fst (snd r)) && Bool.eqb (snd g) (snd (snd r))) rows).\n")
+    with _COQ_SLOTS:
+        rc, out = coq_run(ck, text, "trim")
+    if rc != 0:
+        ck.broken("correspondence:trim", "case file did not compile:\n" + out[-1200:])
+        return
+    lists = re.findall(r"=\s*(\[[^\]]*\]|nil)", out)
+    bad = [] if not lists or lists[0] == "nil" else [int(x) for x in re.findall(r"\d+", lists[0])]
+    ck.hist("streams", "translated-trim")
+    ck.coverage["trim_patterns"] = len(pats)
+    for i in bad[:2]:
+        pat, after, changed = results[i]
+        path = ck.write_replay({"kind": "translation-mismatch", "function": "_remove_trailing_empty_inputs", "inputs": pat,
+                                "implementation": [after, changed],
+                                "explanation": "the per-run translation (Gen/C05GenTrim.v) and the implementation disagree on this input list"},
+                               tag=f"trim-{common.digest(pat)}")
+        ck.broken("correspondence:trim", f"translated function != implementation on {pat} (replay {path})")
+
+
 def _corpus():
     d = os.path.join(common.CORPUS, "C05")
     out = []
@@ -1698,7 +1956,7 @@ def run(ck) -> None:
     # the principal theorem (C05_sequence over all thirteen modelled passes, InlinePass and RemoveUnusedFunctionsPass
     # included, + C05_frame_passes_preserve for the four annotation-only passes) is proved
     ck.level = "proof"
-    ck.notes.append("level_note: Coq theorems (28, all closed) for IdentityElimination, CSE (whole pass), DeduplicateInitializers (both), "
+    ck.notes.append("level_note: Coq theorems (31, all closed) for IdentityElimination, CSE (whole pass), DeduplicateInitializers (both), "
                     "RemoveUnusedNodes (incl. schema-driven output trimming; BatchNormalization training_mode excluded = known finding, "
                     "refuted in Coq), LiftConstantsToInitializers, OutputFix, LiftSubgraphInitializers, Add/RemoveInitializersFromInputs, "
                     "AddDefaultAttributes, TopologicalSort-as-reordering, RemoveUnusedFunctions, InlinePass, and any sequence of them "
@@ -1711,7 +1969,10 @@ def run(ck) -> None:
                     "C05_sequence; C05_sequence_checked states them as executable tests (invb, extra_okb) which the check evaluates in Coq on "
                     "every step (coverage.side_conditions; outside only for dce on BatchNormalization training_mode). RemoveUnusedOpsets "
                     "is modelled with the opset tables in the term (Opsets.v): C05_remove_unused_opsets_keeps_versions + table "
-                    "correspondence in Coq on every run.")
+                    "correspondence in Coq on every run; its body _process_graph_like and DCE's _remove_trailing_empty_inputs are translated from "
+                    "the source on every run (Gen/C05GenOpsets.v, Gen/C05GenTrim.v) and proved equal to the hand models "
+                    "(C05_remove_unused_opsets_translation_equiv, C05_trim_translation_equiv); InlinePass's merge of opset imports: "
+                    "C05_inline_merges_opset_imports + inline_opsets_okb on every inline step.")
     import time
     _tp = time.time()
     generate(ck)
@@ -1748,6 +2009,7 @@ def run(ck) -> None:
     failures += f5
     pending.append(t5)
     ck.hist("streams", "reused-pass-objects")
+    trim_stream(ck, 40 if not ck.thorough else 400)
     mism = []
     import time
     _tw = time.time()
@@ -1783,6 +2045,19 @@ def run(ck) -> None:
 def replay(rp: dict) -> int:
     import logging
     logging.disable(logging.WARNING)
+    if rp.get("kind") == "translation-mismatch":
+        import onnx_ir as ir
+        from onnx_ir.passes.common import unused_removal as U
+        pat = rp["inputs"]
+        vals = {i: ir.Value(name=f"v{i}") for i in set(x for x in pat if x is not None)}
+        node = ir.Node("", "Op", [None if x is None else vals[x] for x in pat], num_outputs=1)
+        changed = U._remove_trailing_empty_inputs(node)
+        after = [None if v is None else int(v.name[1:]) for v in node.inputs]
+        want = list(pat)
+        while want and want[-1] is None:
+            want.pop()
+        print(json.dumps({"inputs": pat, "implementation": [after, bool(changed)], "trailing-omitted-inputs-dropped": [want, want != pat]}))
+        return 0 if (after, bool(changed)) == (want, want != pat) else 1
     spec = rp.get("spec") or (rp.get("witness") or {}).get("spec")
     if spec is None:
         print("replay names a broken obligation/correspondence, no concrete input:",
